@@ -547,6 +547,11 @@ func (ex *Exec) decideAll(obls []*Obligation, cfg SolveCfg) {
 	var rest []*Obligation
 	for _, ob := range obls {
 		if ob.Status == "" {
+			if ex.openFindings[ob.Name] {
+				// an obligation recorded as an open known finding is expected to fail: no long retries
+				ob.Status, ob.Solver = "unknown", "z3-5.1:no-answer-in-2s (known finding, not retried)"
+				continue
+			}
 			rest = append(rest, ob)
 		}
 	}
